@@ -59,7 +59,14 @@ def vh(binary, cmd, args, timeout=3600, env=None):
     a = [binary, cmd]
     for k, v in args.items():
         a += ["--" + k, str(v)]
-    p = sh(a, timeout=timeout, check=False, env=env)
+    # the recorder's own watchdog (a library call that does not return is reported as a Panic event with
+    # key "hang"): 5 minutes without an event in the quick tier, 15 in the thorough one
+    env = dict(env or {})
+    env.setdefault("VH_STALL", "900" if str(args.get("tier", "quick")) == "thorough" else "300")
+    try:
+        p = sh(a, timeout=timeout, check=False, env=env)
+    except subprocess.TimeoutExpired:
+        raise ToolError("harness %s did not finish within %d s" % (cmd, timeout))
     if p.returncode != 0:
         raise ToolError("harness %s failed (%d):\n%s" % (cmd, p.returncode, p.stdout[-4000:]))
     lines = [l for l in p.stdout.strip().splitlines() if l.startswith("{")]
